@@ -1931,6 +1931,8 @@ def emitter_methods():
     def fn_signature(self, f, named, weak=False):
         rt = self.ct(f.ret)
         self.complete(f.ret)
+        if weak and f.ret[0] == 'ptr' and f.ret[1][0] == 'named' and re.search(r'\.\d+$', f.ret[1][1]):
+            rt = 'void*'   # numbered (merge-dependent) struct name: stubs return void*
         ps = []
         for t, n, a in f.params:
             self.complete(t) if t[0] in ('struct', 'named') else self.ct(t)
